@@ -2556,5 +2556,8 @@ func init() {
 	// through the document handler (the writer worlds W-M1/W-M2 remain the main check)
 	register("C16", Scenario{Name: "B-node", World: "B", Weight: 1, Run: func(rc *RunCtx) *RunResult { return runWorldB(rc, "C16") }})
 
+	// C15 with transactions of hundreds to thousands of operations (the node world keeps batches small)
+	register("C15", Scenario{Name: "W-large-txn", World: "W", Weight: 1, Run: func(rc *RunCtx) *RunResult { return runLargeBatchFor(rc, "C15") }})
+
 	register("C06", Scenario{Name: "B-version-cut", World: "B", Weight: 1, Run: func(rc *RunCtx) *RunResult { return runWorldB(rc, "C06") }})
 }
